@@ -76,10 +76,42 @@ type WebSeed struct {
 	Mode  string
 	Bytes int64
 	conns []*vnet.End
+	// Hold parks every request until Release (the explorer owns the instant and, through Mode, the kind of answer).
+	Hold     bool
+	cond     *sync.Cond
+	released int
+	parked   int
+}
+
+// Parked is the number of requests waiting for Release and not yet released.
+func (ws *WebSeed) Parked() int {
+	ws.mu.Lock()
+	defer ws.mu.Unlock()
+	if n := ws.parked - ws.released; n > 0 && ws.Hold {
+		return n
+	}
+	return 0
+}
+
+// Release lets one parked request be answered (with the mode set at that moment).
+func (ws *WebSeed) Release() {
+	ws.mu.Lock()
+	ws.released++
+	ws.cond.Broadcast()
+	ws.mu.Unlock()
+}
+
+// ReleaseAll stops holding.
+func (ws *WebSeed) ReleaseAll() {
+	ws.mu.Lock()
+	ws.Hold = false
+	ws.cond.Broadcast()
+	ws.mu.Unlock()
 }
 
 func (w *World) NewWebSeed(ip string, g *GenTorrent) *WebSeed {
 	ws := &WebSeed{w: w, Addr: ip + ":80", Base: "/ws/", Mode: "ok"}
+	ws.cond = sync.NewCond(&ws.mu)
 	ws.URL = "http://" + ip + ws.Base
 	w.WebSeeds = append(w.WebSeeds, ws)
 	w.dialTargets()[ws.Addr] = func() (net.Conn, error) {
@@ -103,6 +135,13 @@ func (ws *WebSeed) serve(c *vnet.End, g *GenTorrent) {
 		}
 		ws.mu.Lock()
 		ws.Requests = append(ws.Requests, req.URL.Path+" "+req.Header.Get("Range"))
+		if ws.Hold {
+			ws.parked++
+			want := ws.parked
+			for ws.Hold && ws.released < want {
+				ws.cond.Wait()
+			}
+		}
 		mode := ws.Mode
 		ws.mu.Unlock()
 		if mode == "drop" {
@@ -158,6 +197,7 @@ func (ws *WebSeed) serve(c *vnet.End, g *GenTorrent) {
 
 // CloseAll closes every connection (teardown: lets the client's idle keep-alive goroutines exit).
 func (ws *WebSeed) CloseAll() {
+	ws.ReleaseAll()
 	ws.mu.Lock()
 	defer ws.mu.Unlock()
 	for _, c := range ws.conns {
